@@ -741,8 +741,20 @@ def item_windows(ctx, report):
                     report.add('C03.R7', '%s@window[%s]' % (f.construct, arg.id), 'item parser input %s is never bound' % arg.id)
                     continue
                 first = assigns[0].value
+
+                def mentions_size(e, depth=0):
+                    # the upper bound itself, or a local name bound once to an expression that mentions items_size
+                    if 'items_size' in ast.unparse(e):
+                        return True
+                    if depth < 3:
+                        for nm in [x for x in ast.walk(e) if isinstance(x, ast.Name)]:
+                            defs = [st.value for st in ast.walk(f.node) if isinstance(st, ast.Assign) and len(st.targets) == 1 and
+                                    isinstance(st.targets[0], ast.Name) and st.targets[0].id == nm.id]
+                            if len(defs) == 1 and mentions_size(defs[0], depth + 1):
+                                return True
+                    return False
                 bounded = isinstance(first, ast.Subscript) and isinstance(first.slice, ast.Slice) and first.slice.upper is not None and \
-                    'items_size' in ast.unparse(first.slice.upper) and '_parsable' in ast.unparse(first.value)
+                    mentions_size(first.slice.upper) and '_parsable' in ast.unparse(first.value)
                 suffix_only = all(isinstance(st.value, ast.Subscript) and isinstance(st.value.value, ast.Name) and st.value.value.id == arg.id and
                                   isinstance(st.value.slice, ast.Slice) and st.value.slice.upper is None for st in assigns[1:])
                 if not bounded or not suffix_only:
